@@ -141,6 +141,7 @@ func runC04(c *runCtx) {
 	defer cleanupScratch()
 	c04Identities(c)
 	c04Alias(c)
+	c04JsonStr(c)
 	N := c.pick(160, 2500)
 	for i := 0; i < N; i++ {
 		r := c.rng.fork()
@@ -495,4 +496,71 @@ func c04Alias(c *runCtx) {
 		}
 		restore()
 	}
+}
+
+// c04JsonStr: the byte level under every stored operation and identity version: what encoding/json
+// writes for a string and reads from a literal, against the model (GitBugModel.JsonStr: encode, decode;
+// decode (encode s) = s is proved there).
+func c04JsonStr(c *runCtx) {
+	r := c.rng.fork()
+	var strs []string
+	// every character below U+3100 alone between letters, then some of the other planes, then mixtures
+	for cp := rune(0); cp <= 0x3100; cp++ {
+		if cp >= 0xd800 && cp <= 0xdfff {
+			continue
+		}
+		strs = append(strs, "a"+string(cp)+"b")
+	}
+	for _, cp := range []rune{0xfffd, 0xfffe, 0xffff, 0x10000, 0x1f600, 0x10ffff, 0xe000, 0xd7ff, 0xfeff} {
+		strs = append(strs, string(cp), "x"+string(cp)+string(cp))
+	}
+	alphabet := []rune{'a', '"', '\\', '/', '<', '>', '&', '\n', '\r', '\t', '\b', '\f', 0, 0x1f, 0x7f, 0x80, 0x2028, 0x2029, 'é', '日', 0x1f600, ' ', 'u', '0'}
+	for i := 0; i < c.pick(500, 20000); i++ {
+		n := r.intn(12)
+		rs := make([]rune, n)
+		for k := range rs {
+			rs[k] = pickOne(r, alphabet)
+		}
+		strs = append(strs, string(rs))
+	}
+	enc := make([]string, len(strs))
+	for i, s := range strs {
+		b, err := json.Marshal(s)
+		if err != nil {
+			panic(err)
+		}
+		enc[i] = string(b)
+		var back string
+		if err := json.Unmarshal(b, &back); err != nil || back != s {
+			c.violation(c.nCases, "C04/json-string", fmt.Sprintf("a text does not survive encoding/json: %q -> %s -> %q (%v)", s, b, back, err), nil)
+		}
+	}
+	// literals as a foreign writer could produce them: every escape form, pairs and lone surrogates, bad ones
+	lits := []string{`"plain"`, `"\/"`, `"\u00e9\u00E9"`, `"\ud83d\ude00"`, `"\ud83d"`, `"\ud83dx"`, `"\ude00"`, `"\ud83d\u0041"`, `"\ud83d\ud83d\ude00"`,
+		`"\x41"`, `"\u12"`, `"\u12g4"`, `"unterminated`, `""`, `"a"b"`, "\"raw\ttab\"", "\"raw\x01\"", `"\b\f\n\r\t\"\\"`, `"\u0000"`, `"\uFFFF\uffff"`, `"\`, `"\u"`, `plain`, `"\ud83d\u"`, `"\ud83d\ude0"`, "\"\x7f\"", `"é日😀"`}
+	pieces := []string{`\u`, `d83d`, `de00`, `0041`, `\n`, `\\`, `\"`, `a`, `"`, `\ud800`, `\udfff`, `\udbff\udc00`, `é`, `/`, `\/`, `\z`}
+	for i := 0; i < c.pick(300, 10000); i++ {
+		var sb strings.Builder
+		sb.WriteByte('"')
+		for k := 0; k < r.intn(7); k++ {
+			sb.WriteString(pickOne(r, pieces))
+		}
+		if r.chance(9, 10) {
+			sb.WriteByte('"')
+		}
+		lits = append(lits, sb.String())
+	}
+	dec := make([]any, len(lits))
+	for i, l := range lits {
+		var back string
+		if err := json.Unmarshal([]byte(l), &back); err != nil {
+			dec[i] = map[string]any{"err": true}
+			c.count("json-literal=err")
+		} else {
+			dec[i] = map[string]any{"ok": back}
+			c.count("json-literal=ok")
+		}
+	}
+	c.emit(map[string]any{"cmd": "jsonstr", "strings": strs, "literals": lits}, map[string]any{"encoded": enc, "decoded": dec})
+	c.countN("json-strings", len(strs))
 }
